@@ -15,8 +15,9 @@ Definition w_D14 : cstmts :=
   SCons (SDecl [TS_intN false 8] "x" (Some (EOp (OReg "R" "s"))))
  (SCons (SExpr (EAssign AAdd (EOp (OIdent "x")) (EOp (ONum 1 false ""))))
  (SCons (SExpr (EAssign AAssign (EOp (OReg "R" "d")) (EOp (OIdent "x")))) SNil)).
-Theorem C05_refuted_compound_narrow : mistranslated w_D14 32.
-Proof. right. vm_compute. reflexivity. Qed.
+(* FIXED in /repo (fix: compound assignment converts the result to the type of its target) *)
+Example C05_fixed_compound_narrow : forallb (fun s => match verdict_of (cfg_insn 0) w_D14 s with Some Agree => true | _ => false end) [32; 33; 34; 35; 46; 74] = true.
+Proof. vm_compute. reflexivity. Qed.
 
 (* D19: { RdV = RsV % RtV; } — unsigned MOD on signed operands *)
 Definition w_D19 : cstmts :=
@@ -25,7 +26,7 @@ Theorem C05_refuted_signed_remainder : mistranslated w_D19 46.
 Proof. left. vm_compute. reflexivity. Qed.
 
 Theorem C05_refuted : ~ C05_statement.
-Proof. apply (refute _ w_D14 32 I). exact C05_refuted_compound_narrow. Qed.
+Proof. apply (refute _ w_D19 46 I). exact C05_refuted_signed_remainder. Qed.
 Print Assumptions C05_refuted.
 
 Example C05_repaired_witnesses :
